@@ -561,6 +561,22 @@ fn gen_family(rng: &mut Rng, c: &mut Case, fam: &str, be: bool) {
             let n1 = std::mem::take(&mut c.note);
             gen_family(rng, c, "cfi", be);
             note = format!("{}+{}", n1, c.note);
+            if rng.chance(1, 4) {
+                // a skeleton unit in the main file and the split unit it names in a DWO file
+                let asz = c.knob("addr_size", 8) as u8;
+                let (main, split) = asm::split_pair(rng, be, asz);
+                for (k, v) in main {
+                    c.put(&k, v);
+                }
+                for (k, mut v) in split {
+                    if rng.chance(1, 10) {
+                        gen_::corrupt_some(rng, &mut v, &[], &mut note);
+                    }
+                    c.put(&format!("dwo_{}", k), v);
+                }
+                c.set("dwo", 0);
+                note.push_str("+split");
+            }
             c.set("addr_fail_at", if rng.chance(1, 8) { rng.below(12) as i64 } else { -1 });
             c.set("write_fail_at", if rng.chance(1, 8) { rng.below(40) as i64 } else { -1 });
         }
